@@ -798,7 +798,8 @@ RetDrive(h, e) ==
       h7 == IF r.k = "err" /\ r.v = "InflightExhausted"
             THEN CheckKF(h6, FALSE, "C06", "a QoS 2 exchange was dropped because too many wait for PUBCOMP", "D6", TRUE)
             ELSE h6
-      h8 == IF o.hasmsg /\ r.k = "ok" /\ r.hasmsg /\ SameMsg(r.msg, o.msg) THEN C20Check(h7, o.msg, r.msg.probe) ELSE h7
+      \* C20 is judged against the PUBLISH as the broker sent it, also when it was not surfaced verbatim
+      h8 == IF o.hasmsg /\ r.k = "ok" /\ r.hasmsg THEN C20Check(h7, o.msg, r.msg.probe) ELSE h7
       \* C14: a mandatory acknowledgement that does not fit the broker's Maximum Packet Size ends the
       \* connection (every acknowledgement of this client is five bytes long).  Known finding D14: the
       \* acknowledgement became owed on an earlier connection and was carried over.
